@@ -13,7 +13,7 @@ import math
 from fractions import Fraction as F
 
 from .. import gen
-from ..common import cnat, cq, cbool, clist, copt, coq_eval
+from ..common import cnat, cq, cbool, clist, copt, safe_coq_eval
 from ..impl import Impl
 
 IMPORTS = ['Base.Util', 'Model.Bfs', 'Model.PageRank', 'Model.Centrality']
@@ -424,8 +424,9 @@ def _run(ctx, rng, quick, nmax, threads_set, impl):
     pool = [p for p in validator_pool if p[1] <= (10 if quick else 16)][:150 if quick else 400]
     exprs = ['residual_check %s %s %s %s %s' % (wg_lit(n, adj), cq(alpha), clist(y, cq), clist([F(o) for o in obs], cq),
                                                 cq(EPS[solver])) for (solver, n, adj, alpha, y, obs) in pool]
-    if exprs:
-        vals = coq_eval('c04val', IMPORTS, exprs, shard=40)
+    # (the validator is evaluated inside Coq: model side, skipped when the model no longer evaluates)
+    vals = safe_coq_eval(ctx, 'c04val', IMPORTS, exprs, shard=40) if exprs else None
+    if vals is not None:
         for (solver, n, adj, alpha, y, obs), ok in zip(pool, vals):
             ctx.count('validator:' + solver, ('val', solver, n, adj, str(alpha), obs), True)
             if ok is not True:
@@ -478,12 +479,16 @@ def _run(ctx, rng, quick, nmax, threads_set, impl):
                 c, wg_lit(r, ent), cbool(args['force_bipartite']), lits[0], lits[1], lits[2], cq(alpha), n_iter, cq(t),
                 COQ_SOLVER[solver], clist(order, cnat)))
             index.append(ci)
-    vals = coq_eval('c04x', IMPORTS, exprs, prelude=PRELUDE, shard=60) if exprs else []
+    vals = safe_coq_eval(ctx, 'c04x', IMPORTS, exprs, prelude=PRELUDE, shard=60) if exprs else []
+    xdead = vals is None      # model dead: recorded in ctx.proof_broken; nothing to compare these small-budget runs with
+    vals = vals or []
     by_case = {}
     for ci, v in zip(index, vals):
         by_case.setdefault(ci, []).append(conv_fit(v))
     for ci, ((fam, r, c, ent, bip, alpha, lits, args, solver, n_iter, tolq), res) in enumerate(zip(xcases, results)):
         ctx.count('model:pagerank:' + solver, ('x', args), True)
+        if xdead:
+            continue
         models = by_case[ci]
         if any(m != models[0] for m in models):
             # the tolerance test of the kernel is taken within 1e-3 of its threshold: a legitimate near-tie
@@ -515,7 +520,8 @@ def _run(ctx, rng, quick, nmax, threads_set, impl):
     for (fam, r, c, ent, alpha, K) in kcases:
         g = wg_lit(r, ent) if r == c else '(block_undirected %d %s)' % (c, wg_lit(r, ent))
         exprs.append('lq (katz %s %s %d)' % (g, cq(alpha), K))
-    kvals = [fr(v) for v in coq_eval('c04katz', IMPORTS, exprs, prelude=PRELUDE, shard=100)]
+    kvals = safe_coq_eval(ctx, 'c04katz', IMPORTS, exprs, prelude=PRELUDE, shard=100)
+    kvals = [fr(v) for v in kvals] if kvals is not None else [None] * len(kcases)     # None: model dead, brute force only
     for (fam, r, c, ent, alpha, K), model in zip(kcases, kvals):
         args = dict(m=mspec(r, c, ent, rng.choice(['float', 'int'])), damping=float(alpha), path_length=K)
         res = impl(1).call('c04', 'katz', args)
@@ -527,7 +533,7 @@ def _run(ctx, rng, quick, nmax, threads_set, impl):
         if obs is None or not close(obs, truth, 1e-9):
             ctx.violation('Katz', 'Katz scores differ from sum_{k=1..K} alpha^k (A^T)^k 1 on the 0/1 pattern (brute force)',
                           case=dict(args=args, family=fam), expected=[float(v) for v in truth], observed=obs if obs is not None else res)
-        if list(model) != truth:
+        if model is not None and list(model) != truth:
             ctx.violation('model_katz', 'Coq model of Katz differs from the brute-force definition',
                           case=dict(args=args), expected=[str(v) for v in truth], observed=[str(v) for v in model])
 
@@ -558,8 +564,11 @@ def _run(ctx, rng, quick, nmax, threads_set, impl):
         cb.append((('dir:' if directed else 'und:') + fam + '_' + wk, n, ent))
     cexprs = ['lq (closeness_exact %s)' % pat_lit(n, ent) for (_, n, ent) in cb]
     bexprs = ['lq (betweenness %s)' % wg_lit(n, ent) for (_, n, ent) in cb]
-    cvals = [fr(v) for v in coq_eval('c04clo', IMPORTS, cexprs, prelude=PRELUDE, shard=100)]
-    bvals = [fr(v) for v in coq_eval('c04btw', IMPORTS, bexprs, prelude=PRELUDE, shard=60)]
+    cvals = safe_coq_eval(ctx, 'c04clo', IMPORTS, cexprs, prelude=PRELUDE, shard=100)
+    bvals = safe_coq_eval(ctx, 'c04btw', IMPORTS, bexprs, prelude=PRELUDE, shard=60)
+    # None entries: model dead; the definitions evaluated in Python (exact_closeness, brute_betweenness) still judge the outputs
+    cvals = [fr(v) for v in cvals] if cvals is not None else [None] * len(cb)
+    bvals = [fr(v) for v in bvals] if bvals is not None else [None] * len(cb)
     approx = []
     for (fam, n, ent), cmodel, bmodel in zip(cb, cvals, bvals):
         m = mspec(n, n, ent, rng.choice(['float', 'int']))
@@ -570,12 +579,13 @@ def _run(ctx, rng, quick, nmax, threads_set, impl):
         ctx.count('closeness:' + ('und' if sym else 'dir'), ('clo', m), True)
         obs = res['ok']['scores'] if 'ok' in res else None
         truth = exact_closeness(n, ent)
-        if list(cmodel) != truth:
+        if cmodel is not None and list(cmodel) != truth:
             ctx.violation('model_closeness', 'Coq model of Closeness differs from (n-1)/sum of hop distances',
                           case=dict(m=m), expected=[str(v) for v in truth], observed=[str(v) for v in cmodel])
-        if obs is None or not close(obs, cmodel, 1e-9):
+        if obs is None or (cmodel is not None and not close(obs, cmodel, 1e-9)):
             ctx.violation('Closeness', 'Closeness(method=exact) differs from the Coq model', case=dict(m=m, family=fam),
-                          method='exact', expected=[float(v) for v in cmodel], observed=obs if obs is not None else res)
+                          method='exact', expected=[float(v) for v in (cmodel if cmodel is not None else truth)],
+                          observed=obs if obs is not None else res)
         elif strongly_connected(n, ent) and not close(obs, truth, 1e-9):
             ctx.violation('Closeness', 'Closeness(method=exact) differs from (n-1)/sum_j d(i,j)', case=dict(m=m, family=fam),
                           method='exact', expected=[float(v) for v in truth], observed=obs)
@@ -590,7 +600,7 @@ def _run(ctx, rng, quick, nmax, threads_set, impl):
         ctx.count('betweenness:' + ('und' if sym else 'dir'), ('btw', m), n >= 3)
         obs = res['ok']['scores'] if 'ok' in res else None
         brute = brute_betweenness(n, ent)
-        if list(bmodel) != brute:
+        if bmodel is not None and list(bmodel) != brute:
             ctx.violation('model_betweenness', 'Coq model of Brandes differs from the brute-force enumeration of shortest paths',
                           case=dict(m=m), expected=[str(v) for v in brute], observed=[str(v) for v in bmodel])
         if obs is None or not close(obs, brute, 2e-4):
@@ -609,7 +619,8 @@ def _run(ctx, rng, quick, nmax, threads_set, impl):
         if 'ok' in res:
             aexprs.append('lq (closeness_approx %s %s)' % (pat_lit(n, ent), clist(res['ok']['sources'], cnat)))
             aidx.append(k)
-    avals = dict(zip(aidx, [fr(v) for v in coq_eval('c04cla', IMPORTS, aexprs, prelude=PRELUDE, shard=100)])) if aexprs else {}
+    avals = safe_coq_eval(ctx, 'c04cla', IMPORTS, aexprs, prelude=PRELUDE, shard=100) if aexprs else []
+    avals = dict(zip(aidx, [fr(v) for v in avals])) if avals is not None else {}      # {}: model dead
     for k, ((fam, n, ent, m, sym, tol, seed, truth), res) in enumerate(zip(approx, ares)):
         ctx.count('closeness_approx:' + ('und' if sym else 'dir'), ('cla', m, tol, seed), True)
         obs = res['ok']['scores'] if 'ok' in res else None
@@ -618,7 +629,7 @@ def _run(ctx, rng, quick, nmax, threads_set, impl):
             bad = 'no result'
         elif len(obs) != n:
             bad = 'the score vector does not have one entry per node'
-        elif not close(obs, avals[k], 1e-9):
+        elif k in avals and not close(obs, avals[k], 1e-9):
             bad = 'differs from the Coq model evaluated on the sources actually drawn'
         elif sym and len(res['ok']['sources']) == n and not close(obs, truth, 1e-9):
             bad = 'all nodes were sampled on an undirected graph but the scores differ from the exact closeness'
@@ -654,7 +665,8 @@ def _run(ctx, rng, quick, nmax, threads_set, impl):
         if 'ok' in res and k % 2 == 0:
             hexprs.append('(fun p : list Q * list Q => (lq (fst p), lq (snd p))) (hits %s %s)' % (clist([F(x) for x in res['ok']['raw_u']], cq), clist([F(x) for x in res['ok']['raw_v']], cq)))
             hidx.append(k)
-    hvals = dict(zip(hidx, [(fr(a), fr(b)) for (a, b) in coq_eval('c04hits', IMPORTS, hexprs, prelude=PRELUDE, shard=100)])) if hexprs else {}
+    hvals = safe_coq_eval(ctx, 'c04hits', IMPORTS, hexprs, prelude=PRELUDE, shard=100) if hexprs else []
+    hvals = dict(zip(hidx, [(fr(a), fr(b)) for (a, b) in hvals])) if hvals is not None else {}      # {}: model dead
     for k, ((connected, r, c, ent), res) in enumerate(zip(hcases, hres)):
         m = mspec(r, c, ent)
         if 'ok' not in res:
@@ -703,7 +715,8 @@ def _run(ctx, rng, quick, nmax, threads_set, impl):
             iexprs.append('(fun p : list Q * list Q => (lq (fst p), lq (snd p))) (hits %s %s)' % (
                 clist([F(x) for x in res['ok']['raw_u']], cq), clist([F(x) for x in res['ok']['raw_v']], cq)))
             iidx.append(k)
-    ivals = dict(zip(iidx, [(fr(a), fr(b)) for (a, b) in coq_eval('c04hinj', IMPORTS, iexprs, prelude=PRELUDE, shard=100)])) if iexprs else {}
+    ivals = safe_coq_eval(ctx, 'c04hinj', IMPORTS, iexprs, prelude=PRELUDE, shard=100) if iexprs else []
+    ivals = dict(zip(iidx, [(fr(a), fr(b)) for (a, b) in ivals])) if ivals is not None else {}      # {}: model dead
     for k, (connected, args, res) in enumerate(inj):
         if 'ok' not in res:
             ctx.count('hits_injected', ('hinj', args), True)
@@ -714,8 +727,8 @@ def _run(ctx, rng, quick, nmax, threads_set, impl):
             ctx.margin_dropped += 1
             continue
         ctx.count('hits_injected:' + ('connected' if connected else 'components'), ('hinj', args), True)
-        mu, mv_ = ivals[k]
-        if not (close(o['row'], mu, 1e-12) and close(o['col'], mv_, 1e-12)):
+        mu, mv_ = ivals.get(k, (None, None))
+        if mu is not None and not (close(o['row'], mu, 1e-12) and close(o['col'], mv_, 1e-12)):
             ctx.violation('model_hits', 'Coq model of the HITS wrapper differs from the implementation on injected singular vectors',
                           case=args, expected=[[float(x) for x in mu], [float(x) for x in mv_]], observed=[o['row'], o['col']])
         if not (close(o['row'], o['svd_u'], 1e-9) and close(o['col'], o['svd_v'], 1e-9)):
